@@ -33,10 +33,15 @@ func profiles(nodes int) []Profile {
 	jointw.Conf, jointw.Campaign, jointw.Crash, jointw.Restart, jointw.Compact = 5, 6, 1, 4, 1
 	specw := faulty
 	specw.Conf, specw.Compact, specw.Partition, specw.Drop = 0, 0, 0, 14
+	specpv := specw // two-phase elections need about twice the campaigns to change leaders as often
+	specpv.Campaign = 6
 	if nodes == -1 { // profiles inside the scope of EtcdRaft.tla (trace validation, B2)
 		return []Profile{
 			{Name: "n3-spec", Opt: Options{N: 3, Voters: three}, W: specw},
 			{Name: "n3-spec-one", Opt: Options{N: 3, Voters: three, MaxEnts: 1}, W: specw},
+			// PreVote without CheckQuorum: inside EtcdRaft.tla with PreVote = TRUE (TraceEtcdRaft_prevote*.cfg)
+			{Name: "n3-spec-prevote", Opt: Options{N: 3, Voters: three, PreVote: true}, W: specpv},
+			{Name: "n3-spec-prevote-one", Opt: Options{N: 3, Voters: three, PreVote: true, MaxEnts: 1}, W: specpv},
 		}
 	}
 	ps := []Profile{
